@@ -29,8 +29,9 @@ ALL = (BIN2 + UN1 + SHIFT + SHIFTU + CONST + MOD3 +
 
 
 def unit(bits):
-    """seconds of coqc time for one general division (Z.modulo / Z.div) at this width; every
-    case is evaluated three times (model, spec on the observed answer, spec on the model's)"""
+    """seconds of coqc time for one general division (Z.modulo / Z.div) of the *specification* at this
+    width (the limb-level models are much cheaper); every case is evaluated three times (model,
+    spec on the observed answer, spec on the model's)"""
     return 3 * 0.07 * (bits / 536.0) ** 2
 
 
